@@ -124,12 +124,18 @@ def e2eProgram (op : SOp) (w : WorldT) : Option (MT RetE × WorldT) := do
   | "pwd" => pure (liftRetE .reply (lift (simple "PWD" none)), w)
   | "cwd" => do let x ← hexArg a 0; pure (liftRetE .reply (lift (simple "CWD" (some x))), w)
   | "list" => pure (liftRetE (fun p => .list p.1 p.2) (fileListT none false), w)
-  | "get" => do let path ← hexArg a 0; pure (liftRetE .replies (downloadT path), w)
+  | "get" => do
+    let path ← hexArg a 0
+    let cbSpec := a.getD 2 "-"
+    let polls := if cbSpec = "-" then [] else (cbSpec.drop 1).toString.toList.map (fun c => c == '1')
+    pure (liftRetE .replies (if cbSpec = "-" then downloadT path else downloadCbT path), { w with base := { w.base with polls := polls } })
   | "put" => do
     let path ← hexArg a 1
     let data ← parsePayload (a.getD 2 "")
-    pure (liftRetE .replies (uploadT (a.getD 0 "STOR") path),
-          { w with base := { w.base with src := ⟨data, cyc [8192] (data.length + 2)⟩ } })
+    let cbSpec := a.getD 3 "-"
+    let polls := if cbSpec = "-" then [] else (cbSpec.drop 1).toString.toList.map (fun c => c == '1')
+    pure (liftRetE .replies (if cbSpec = "-" then uploadT (a.getD 0 "STOR") path else uploadCbT (a.getD 0 "STOR") path),
+          { w with base := { w.base with src := ⟨data, cyc [8192] (data.length + 2)⟩, polls := polls } })
   | "disc" => pure (liftRetE .opt (disconnectT (a.getD 0 "" = "1")), w)
   | "isconn" => pure (pure (.bool w.base.connected), w)
   | _ => none
@@ -405,13 +411,18 @@ def monitorE2e (cfg : E2eCfg) (st : E2eState) (op : SOp) (seg : List String) : O
           | some t => if !cfg.resume then some "session-offered-without-resumption"
                       else if (t.splitOn ":").getD 2 "0" != toString (st.ctlSsl.getD 0) then some "offered-session-is-not-the-control-session" else none
           | none => if cfg.resume then some "control-session-not-offered" else none
+      -- same verification settings as the control connection: a data peer that presents a certificate of a CA the
+      -- control connection does not trust must be refused when the control connection verifies its peer
+      let otherCert := op.groups.any (·.dataOtherCert)
+      let goodCtl := st.protectedSession
+      (if otherCert && cfg.verifyPeer && goodCtl && returned then some "data-connection-accepted-a-certificate-the-control-connection-refuses" else none) <|>
       bad <|>
       (match (seg.find? fun t => t.startsWith "peer:") with
        | some pk =>
          let f := pk.splitOn ":"
          -- peer:<connected>:<sent>:<recvlen>:<fnv>:<eof>:<err>:<tls_ok>:<reused>
          if f.getD 7 "0" = "1" && st.protectedSession then
-           (if cfg.resume && f.getD 8 "0" != "1" then some "server-did-not-see-session-reuse"
+           (if cfg.resume && f.getD 8 "0" != "1" && !otherCert then some "server-did-not-see-session-reuse"
             else if !cfg.resume && f.getD 8 "0" = "1" then some "session-reused-without-resumption" else none)
          else none
        | none => none)
